@@ -189,6 +189,60 @@ theorem centre_outside_not_counted {coarse fine : Geom α} (hcsz : 0 < coarse.cs
     ¬ InFootprint coarse k (getcoord fine c).1 (getcoord fine c).2 := fun hkf =>
   hout (inExtent_of_inFootprint hcsz hc (cIntersect_keys_valid _ _ _ k hk) hkf)
 
+/-- the same for an arbitrary cell list (repeats, invalid numbers): a cell number that is not a cell of the
+flow-direction grid has no centre (`cell2coord` gives NaN) and is counted nowhere -/
+theorem intersect_weight_counts_centres_any {coarse fine : Geom α} (hcsz : 0 < coarse.csz) (hc : 0 < coarse.ncols)
+    {cells : List Int} {k : Int} {w : α}
+    (h : (k, w) ∈ cIntersect coarse fine.csz (cells.map (cell2coord fine))) :
+    w = (fine.csz / coarse.csz) ^ 2 *
+      ((cells.countP fun c => validCell fine.nrows fine.ncols c &&
+        decide (InFootprint coarse k (getcoord fine c).1 (getcoord fine c).2) : Nat) : α) := by
+  have hk : k ∈ (cIntersect coarse fine.csz (cells.map (cell2coord fine))).map Prod.fst :=
+    List.mem_map.2 ⟨(k, w), h, rfl⟩
+  have hv := cIntersect_keys_valid _ _ _ k hk
+  rw [(cIntersect_weight h).1]
+  congr 2
+  rw [List.count_eq_countP, List.countP_map, List.countP_map]
+  apply List.countP_congr
+  intro c _
+  simp only [Function.comp, beq_iff_eq, Bool.and_eq_true, decide_eq_true_eq]
+  unfold cell2coord
+  by_cases hvc : validCell fine.nrows fine.ncols c = true
+  · rw [if_pos hvc]
+    simp only [hvc, true_and]
+    exact cellOfPt_eq_iff hcsz hc hv _ _
+  · rw [if_neg hvc]
+    have := (validCell_iff.1 hv).1
+    constructor
+    · intro hneg
+      have : (-1 : Int) = k := hneg
+      omega
+    · rintro ⟨hvt, -⟩
+      exact absurd hvt hvc
+
+/-- area conservation for an arbitrary cell list -/
+theorem intersect_area_conserved_any {coarse fine : Geom α} (hcsz : 0 < coarse.csz) (cells : List Int) :
+    ((cIntersect coarse fine.csz (cells.map (cell2coord fine))).map fun kw => kw.2 * (coarse.csz * coarse.csz)).sum =
+      ((cells.countP fun c => validCell fine.nrows fine.ncols c &&
+        decide (InExtent coarse (getcoord fine c).1 (getcoord fine c).2) : Nat) : α) * (fine.csz * fine.csz) := by
+  rw [cIntersect_total hcsz.ne', List.countP_map]
+  congr 2
+  apply List.countP_congr
+  intro c _
+  simp only [Function.comp, decide_eq_true_eq, Bool.and_eq_true]
+  unfold cell2coord
+  by_cases hvc : validCell fine.nrows fine.ncols c = true
+  · rw [if_pos hvc]
+    simp only [hvc, true_and]
+    exact cellOfPt_nonneg_iff hcsz _ _
+  · rw [if_neg hvc]
+    constructor
+    · intro hneg
+      have : (0 : Int) ≤ -1 := hneg
+      omega
+    · rintro ⟨hvt, -⟩
+      exact absurd hvt hvc
+
 end Catchment
 
 /-! ### D. `Catchment.intersect`: lists, sub-grid, scatter (exact arithmetic) -/
@@ -395,6 +449,89 @@ theorem intersect_subgrid_cell_centre {coarse fine : Geom α} {cells : List Int}
   · simp only []; push_cast; ring
   · simp only []; push_cast; ring
 
+/-! #### the property's clauses stated on what `Catchment.intersect` returns -/
+
+/-- each grid cell appears once in the returned `idxcells` -/
+theorem intersect_result_nodup {coarse fine : Geom α} {cells : List Int} {a : AreaGrid α}
+    (h : intersect coarse fine cells = .ok a) : a.keys.Nodup := by
+  obtain ⟨kw0, rest, heq, hk, -⟩ := intersect_eq_ok h
+  have := cIntersect_keys_nodup coarse fine.csz (cells.map (cell2coord fine))
+  rw [heq] at this
+  rw [hk]; exact this
+
+/-- every returned weight is the ratio of cell areas times the number of catchment cells whose centre lies in the
+footprint of its grid cell -/
+theorem intersect_result_weight {coarse fine : Geom α} (hcsz : 0 < coarse.csz) (hc : 0 < coarse.ncols)
+    {cells : List Int} {a : AreaGrid α} (h : intersect coarse fine cells = .ok a) {k : Int} {w : α}
+    (hkw : (k, w) ∈ a.keys.zip a.weights) :
+    w = (fine.csz / coarse.csz) ^ 2 *
+      ((cells.countP fun c => validCell fine.nrows fine.ncols c &&
+        decide (InFootprint coarse k (getcoord fine c).1 (getcoord fine c).2) : Nat) : α) := by
+  rw [(intersect_lists h).1] at hkw
+  exact intersect_weight_counts_centres_any hcsz hc hkw
+
+/-- the returned weights times the grid-cell area sum to the area of the catchment cells whose centre lies in the
+grid -/
+theorem intersect_result_area {coarse fine : Geom α} (hcsz : 0 < coarse.csz)
+    {cells : List Int} {a : AreaGrid α} (h : intersect coarse fine cells = .ok a) :
+    (a.weights.map fun w => w * (coarse.csz * coarse.csz)).sum =
+      ((cells.countP fun c => validCell fine.nrows fine.ncols c &&
+        decide (InExtent coarse (getcoord fine c).1 (getcoord fine c).2) : Nat) : α) * (fine.csz * fine.csz) := by
+  rw [← intersect_area_conserved_any hcsz cells]
+  obtain ⟨kw0, rest, heq, -, hw, -⟩ := intersect_eq_ok h
+  rw [hw, heq, List.map_map]
+  rfl
+
+/-- and so does the weight grid: the sum of all its entries is the sum of the weights (each weight placed once,
+zero elsewhere) — stated through the entries: an entry is a listed weight or 0 -/
+theorem intersect_entry_cases {coarse fine : Geom α} {cells : List Int} {a : AreaGrid α}
+    (hc : 0 < coarse.ncols) (h : intersect coarse fine cells = .ok a) {i j : Nat}
+    (hi : i < a.nrows.toNat) (hj : j < a.ncols.toNat) :
+    (∃ k w, (k, w) ∈ a.keys.zip a.weights ∧ prow coarse k = a.rowStart + i ∧ pcol coarse k = a.colStart + j ∧
+        a.at i j = some w) ∨
+    ((∀ k ∈ a.keys, ¬ (prow coarse k = a.rowStart + i ∧ pcol coarse k = a.colStart + j)) ∧ a.at i j = some 0) := by
+  by_cases hex : ∃ k ∈ a.keys, prow coarse k = a.rowStart + i ∧ pcol coarse k = a.colStart + j
+  · left
+    obtain ⟨k, hk, hr, hcl⟩ := hex
+    have hlen := (intersect_lists h).2.1
+    obtain ⟨n, hn, rfl⟩ := List.getElem_of_mem hk
+    have hn' : n < a.weights.length := by omega
+    have hz : (a.keys[n], a.weights[n]) ∈ a.keys.zip a.weights := by
+      rw [List.mem_iff_getElem]
+      exact ⟨n, by simp [hn, hn'], by simp⟩
+    obtain ⟨-, -, hat⟩ := intersect_weight_placed hc h hz
+    refine ⟨_, _, hz, hr, hcl, ?_⟩
+    rw [hr, hcl] at hat
+    simpa using hat
+  · right
+    have hno : ∀ k ∈ a.keys, ¬ (prow coarse k = a.rowStart + i ∧ pcol coarse k = a.colStart + j) :=
+      fun k hk hkk => hex ⟨k, hk, hkk⟩
+    exact ⟨hno, intersect_zero_elsewhere h hi hj hno⟩
+
+/-! #### `catchment.intersect(grid, filled)` -/
+
+/-- `filled` selects the cell list: the filled area when `True`, the delineated area when `False`; everything
+above applies to the selected list -/
+theorem catchment_intersect_selects (ca : Catchment α) (grid : Geom α) (filled : Bool) {cells : List Int}
+    (hsel : (if filled then ca.filled else ca.area) = some cells) :
+    ca.intersect grid filled = intersect grid ca.fine cells := by
+  unfold Catchment.intersect
+  rw [hsel]
+
+/-- on a catchment whose selected list is `None` (not delineated) `intersect` fails (numpy `TypeError`), and that
+is the only additional failure -/
+theorem catchment_intersect_error_iff (ca : Catchment α) (grid : Geom α) (filled : Bool) (e : Err) :
+    ca.intersect grid filled = .error e ↔
+      (e = .cellsNone ∧ (if filled then ca.filled else ca.area) = none) ∨
+      ∃ cells, (if filled then ca.filled else ca.area) = some cells ∧ e = .noOverlap ∧
+        ∀ c ∈ cells, cellOfPt grid (cell2coord ca.fine c) < 0 := by
+  unfold Catchment.intersect
+  cases hsel : (if filled then ca.filled else ca.area) with
+  | none => simp [eq_comm]
+  | some cells =>
+    simp only [reduceCtorEq, and_false, false_or, Option.some.injEq, exists_eq_left']
+    exact intersect_error_iff grid ca.fine cells e
+
 end Python
 
 /-! ### E. Voronoi weights (exact arithmetic; any distance function) -/
@@ -448,50 +585,61 @@ theorem nearest_is_closest_lowest_index (g : Geom α) {pts : List (α × α)} (h
         subst hx
         exact h3 k q hk hq
 
-/-- an empty list of points is rejected (error code of the kernel, `ValueError` in `grid.voronoi`) -/
-theorem cVoronoi_noPoints (g : Geom α) (cells : List Int) : cVoronoi dist g cells [] = .error .noPoints := by
-  simp [cVoronoi]
+/-- `c_voronoi` rejects exactly two kinds of input, in this order: an empty list of points, then a grid without
+rows or columns (error code of the kernel, `ValueError` in `grid.voronoi`) -/
+theorem cVoronoi_error_iff (g : Geom α) (cells : List Int) (pts : List (α × α)) (e : Err) :
+    cVoronoi dist g cells pts = .error e ↔
+      (e = .noPoints ∧ pts = []) ∨ (e = .badGrid ∧ pts ≠ [] ∧ (g.nrows < 1 ∨ g.ncols < 1)) := by
+  rw [cVoronoi_unfold]
+  by_cases hp : pts = []
+  · simp [hp, eq_comm]
+  · by_cases hg : g.nrows < 1 ∨ g.ncols < 1
+    · simp [hp, hg, eq_comm]
+    · by_cases hc : cells = [] <;> simp [hp, hg, hc]
+
+theorem cVoronoi_noPoints (g : Geom α) (cells : List Int) : cVoronoi dist g cells [] = .error .noPoints :=
+  (cVoronoi_error_iff dist g cells [] _).2 (Or.inl ⟨rfl, rfl⟩)
 
 /-- with no catchment cell every weight is NaN (`0.0/0.0`) -/
-theorem cVoronoi_noCells (g : Geom α) {pts : List (α × α)} (hp : pts ≠ []) :
+theorem cVoronoi_noCells (g : Geom α) (hr : 0 < g.nrows) (hc : 0 < g.ncols) {pts : List (α × α)} (hp : pts ≠ []) :
     cVoronoi dist g [] pts = .ok (pts.map fun _ => none) := by
-  have : ¬ pts.length < 1 := by
-    cases pts with
-    | nil => exact absurd rfl hp
-    | cons _ _ => simp
-  simp [cVoronoi, this]
+  rw [cVoronoi_unfold, if_neg hp, if_neg (by omega)]
+  simp
 
-/-- with at least one point and one cell: one weight per point, none of them NaN, and weight `j` is the fraction
-of catchment cells whose closest point (lowest index on ties, `nearest_is_closest_lowest_index`) is point `j` -/
-theorem cVoronoi_weight (g : Geom α) {cells : List Int} {pts : List (α × α)} (hp : pts ≠ [])
-    (hcells : cells ≠ []) :
+/-- with at least one point and one cell (on a grid with at least one row and column): one weight per point, none
+of them NaN, and weight `j` is the fraction of catchment cells whose closest point (lowest index on ties,
+`nearest_is_closest_lowest_index`) is point `j` -/
+theorem cVoronoi_weight (g : Geom α) (hr : 0 < g.nrows) (hc : 0 < g.ncols) {cells : List Int}
+    {pts : List (α × α)} (hp : pts ≠ []) (hcells : cells ≠ []) :
     ∃ ws, cVoronoi dist g cells pts = .ok ws ∧ ws.length = pts.length ∧
       ∀ j, j < pts.length →
         ws[j]? = some (some (((cells.countP fun c => decide (nearest (dists dist g pts c) = j) : Nat) : α) /
           (cells.length : α))) := by
-  have h1 : ¬ pts.length < 1 := by
-    cases pts with
-    | nil => exact absurd rfl hp
-    | cons _ _ => simp
-  have h2 : ¬ cells.length = 0 := by
-    cases cells with
-    | nil => exact absurd rfl hcells
-    | cons _ _ => simp
-  refine ⟨_, by simp only [cVoronoi, if_neg h1, if_neg h2]; rfl, ?_, ?_⟩
+  refine ⟨_, by rw [cVoronoi_unfold, if_neg hp, if_neg (by omega), if_neg hcells], ?_, ?_⟩
   · simp [counts, foldl_incr_length]
   · intro j hj
     unfold counts
     rw [List.getElem?_map, foldl_incr_getElem? (fun c => nearest (dists dist g pts c))]
     simp [hj]
 
+/-- whenever `c_voronoi` returns weights for a non-empty catchment, they are exactly those of `cVoronoi_weight`
+(the guards are implied by the success) -/
+theorem cVoronoi_ok_inv (g : Geom α) {cells : List Int} {pts : List (α × α)} {ws : List (Option α)}
+    (h : cVoronoi dist g cells pts = .ok ws) : pts ≠ [] ∧ 0 < g.nrows ∧ 0 < g.ncols := by
+  refine ⟨?_, ?_, ?_⟩
+  · rintro rfl
+    rw [cVoronoi_noPoints] at h; cases h
+  all_goals
+    by_contra hn
+    have := (cVoronoi_error_iff dist g cells pts .badGrid).2
+      (Or.inr ⟨rfl, (by rintro rfl; rw [cVoronoi_noPoints] at h; cases h), (by omega)⟩)
+    rw [this] at h; cases h
+
 /-- Voronoi weights are non-negative -/
 theorem cVoronoi_nonneg (g : Geom α) {cells : List Int} {pts : List (α × α)} {ws : List (Option α)}
     (hcells : cells ≠ []) (h : cVoronoi dist g cells pts = .ok ws) : ∀ w ∈ ws, ∃ x, w = some x ∧ 0 ≤ x := by
-  have hp : pts ≠ [] := by
-    rintro rfl
-    rw [cVoronoi_noPoints] at h
-    cases h
-  obtain ⟨ws', h', hlen, hw⟩ := cVoronoi_weight dist g hp hcells
+  obtain ⟨hp, hr, hc⟩ := cVoronoi_ok_inv dist g h
+  obtain ⟨ws', h', hlen, hw⟩ := cVoronoi_weight dist g hr hc hp hcells
   rw [h] at h'
   injection h' with h'
   subst h'
@@ -506,19 +654,8 @@ theorem cVoronoi_nonneg (g : Geom α) {cells : List Int} {pts : List (α × α)}
 theorem cVoronoi_sum_one (g : Geom α) {cells : List Int} {pts : List (α × α)} {ws : List (Option α)}
     (hcells : cells ≠ []) (h : cVoronoi dist g cells pts = .ok ws) :
     (ws.map fun w => w.getD 0).sum = 1 := by
-  have hp : pts ≠ [] := by
-    rintro rfl
-    rw [cVoronoi_noPoints] at h
-    cases h
-  have h1 : ¬ pts.length < 1 := by
-    cases pts with
-    | nil => exact absurd rfl hp
-    | cons _ _ => simp
-  have h2 : ¬ cells.length = 0 := by
-    cases cells with
-    | nil => exact absurd rfl hcells
-    | cons _ _ => simp
-  simp only [cVoronoi, if_neg h1, if_neg h2] at h
+  obtain ⟨hp, hr, hc⟩ := cVoronoi_ok_inv dist g h
+  rw [cVoronoi_unfold, if_neg hp, if_neg (by omega), if_neg hcells] at h
   injection h with h
   subst h
   have hsum : (counts dist g cells pts).sum = (cells.length : α) := by
@@ -529,12 +666,44 @@ theorem cVoronoi_sum_one (g : Geom α) {cells : List Int} {pts : List (α × α)
       have hne : dists dist g pts c ≠ [] := by unfold dists; simpa using hp
       have := nearest_lt_length hne
       simpa [dists] using this
-  have hn : (cells.length : α) ≠ 0 := by exact_mod_cast h2
+  have hn : (cells.length : α) ≠ 0 := by
+    have : cells.length ≠ 0 := fun e => hcells (List.length_eq_zero_iff.1 e)
+    exact_mod_cast this
   rw [List.map_map]
-  have hf : ((fun w : Option α => w.getD 0) ∘ fun w : α => some (w / C07.Trunc.ofInt (cells.length : Int))) =
+  have hf : ((fun w : Option α => w.getD 0) ∘ fun w : α => some (w / (cells.length : α))) =
       fun w => w / (cells.length : α) := by
     funext w; simp
   rw [hf, sum_map_div, hsum, div_self hn]
+
+/-! #### the wrapper `grid.voronoi` -/
+
+/-- `grid.voronoi` rejects: a catchment that is not delineated (`ValueError`), a points argument that does not have
+two columns after `np.atleast_2d` (`AssertionError` of the Cython wrapper), and what the kernel rejects; nothing else -/
+theorem voronoiPy_error_iff (g : Geom α) (area : Option (List Int)) (arg : PtsArg α) (e : Err) :
+    voronoiPy dist g area arg = .error e ↔
+      (e = .notDelineated ∧ area = none) ∨
+      ∃ cells, area = some cells ∧
+        ((e = .badShape ∧ arg.shape2d.1 ≠ 2) ∨
+         (arg.shape2d.1 = 2 ∧ cVoronoi dist g cells (rowsToPts arg.shape2d.2) = .error e)) := by
+  unfold voronoiPy
+  cases area with
+  | none => simp [eq_comm]
+  | some cells =>
+    simp only [Option.some.injEq, exists_eq_left', reduceCtorEq, and_false, false_or]
+    by_cases hw : arg.shape2d.1 = 2
+    · simp [hw]
+    · simp [hw, eq_comm]
+
+/-- on an `(n, 2)` array of points the wrapper returns what the kernel returns for those points and the
+*unfilled* area — all the Voronoi theorems above apply to `grid.voronoi` -/
+theorem voronoiPy_points (g : Geom α) (cells : List Int) (pts : List (α × α)) :
+    voronoiPy dist g (some cells) (.rows 2 (pts.map fun p => [p.1, p.2])) = cVoronoi dist g cells pts := by
+  simp [voronoiPy, PtsArg.shape2d, rowsToPts_map]
+
+/-- a single point may be given flat, `[x, y]` -/
+theorem voronoiPy_flat_pair (g : Geom α) (cells : List Int) (x y : α) :
+    voronoiPy dist g (some cells) (.flat [x, y]) = cVoronoi dist g cells [(x, y)] := by
+  simp [voronoiPy, PtsArg.shape2d, rowsToPts]
 
 end Voronoi
 
